@@ -383,6 +383,20 @@ func registerReflectModel(e *Engine) {
 		}
 		return kindGoType(rt.Kind)
 	}
+	tm("NumMethod", func(st *State, rt *RType, a []Value) Value {
+		gt := goTypeOf(rt)
+		if gt == nil {
+			st.unsupported("Type.NumMethod on a type without a Go type")
+		}
+		n := 0
+		ms := st.E.P.Prog.MethodSets.MethodSet(gt)
+		for i := 0; i < ms.Len(); i++ {
+			if ms.At(i).Obj().Exported() || types.IsInterface(gt) {
+				n++
+			}
+		}
+		return st.E.intTerm(big.NewInt(int64(n)), types.Typ[types.Int])
+	})
 	tm("Comparable", func(st *State, rt *RType, a []Value) Value {
 		gt := goTypeOf(rt)
 		if gt == nil {
